@@ -337,6 +337,12 @@ func VH_C01_bldAny() {
 		WithExecFuncAny(func(ctx context.Context, p any) (any, error) { return m.exec(p) }).
 		WithExecFallbackFunc(func(p any, err error) (any, error) { return m.fallback(p, err) }).
 		WithPostFuncAny(func(ctx context.Context, s *SharedStore, p, e any) (Action, error) { return m.post(s, p, e) })
+	if vNondet[bool]("batchSettingsOnAFunctionNode") {
+		// the batch settings every node carries mean nothing on a node that is not a batch node:
+		// its lifecycle is the plain one
+		vCover("batch-settings-on-a-function-node")
+		n = n.WithBatchConcurrency(2).WithBatchErrorHandling(false)
+	}
 	act, err := Run(m.ctx, n, m.store)
 	m.finish(act, err)
 }
